@@ -90,14 +90,19 @@ def run_calls(it, st, case):
         calls.append((args, kwargs))
     st.inputs['calls'] = [[list(a), PDict(list(k.items()))] for a, k in calls]
     st.inputs['deco'] = deco
+    st.observed = {'eq': [], 'raised': None}
     for i, (a, k) in enumerate(calls):
         try: r = it.call(w, list(a), dict(k))
         except Raised as e:
+            st.observed['raised'] = i
+            st.inputs['ftable'] = [[n, list(ns), list(vals), r] for (n, ns, vals), r in F.table]
             st.oblige(f'{name}:accepts-every-call-shape-raises-nothing', False, ('C13',), info={'call': i, 'shape': shapes[i], 'exception': V.exc_name(e), 'msg': repr(e.exc.attrs.get('args'))[:100]})
             return 'ok'
         exp = F.pyvc_call(it, list(a), dict(k))
+        e_ = it.py_eq(r, exp); st.observed['eq'].append(e_ if isinstance(e_, bool) else SBool(e_.z))
         st.oblige(f'{name}:result-equals-wrapped-function-of-this-call', it.py_eq(r, exp), ('C13',), info={'call': i, 'shapes': shapes})
     st.oblige(f'{name}:accepts-every-call-shape-raises-nothing', True, ('C13',))
+    st.inputs['ftable'] = [[n, list(ns), list(vals), r] for (n, ns, vals), r in F.table]
     return 'ok'
 
 def run_order(it, st, T1, T2):
@@ -162,20 +167,27 @@ def run_scan(it, st):
 def _native_calls(inputs):
     import importlib, spil.util.caching as cm
     importlib.reload(cm)
-    log = []
+    table = inputs.get('ftable') or []
     def F(*a, **k):
-        log.append((a, tuple(sorted(k.items())))); return ('F', a, tuple(sorted(k.items())))
+        # the uninterpreted function under the solver's model: results as the model assigns them, fresh tokens elsewhere
+        names = sorted(k)
+        for n, ns, vals, r in table:
+            if n == len(a) and list(ns) == names and list(vals) == list(a) + [k[x] for x in names]: return r
+        return 'F?' + repr((a, tuple(sorted(k.items()))))
     cm._max_size = max(1, int(inputs.get('max_size') or 1))
     w = getattr(cm, inputs['deco'])(F)
     res = []
     for a, k in inputs['calls']:
         try: r = w(*a, **k)
         except BaseException as e: res.append(('raise', type(e).__name__, str(e)[:100])); break
-        res.append(('ret', r == ('F', tuple(a), tuple(sorted(k.items())))))
+        res.append(('ret', r == F(*a, **k)))
     return res
 def crosscheck(case, conc, exp):
-    if case[0] != 'calls': return {'status': 'agree'}
-    return {'status': 'agree'}      # outcome comparison is part of replay; the engine's verdicts on this harness are obligations, not values
+    if case[0] != 'calls': return {'status': 'agree', 'note': 'no value-level outcome to compare for this case'}
+    res = _native_calls(conc)
+    got = {'eq': [r[1] for r in res if r[0] == 'ret'], 'raised': next((i for i, r in enumerate(res) if r[0] == 'raise'), None)}
+    if got != exp: return {'status': 'diverged', 'input': conc, 'cpython': got, 'engine': exp}
+    return {'status': 'agree'}
 def replay(case, ob, inputs):
     if case is None or case[0] == 'scan':
         return {'confirmed': True, 'call': 'scan of cache-decorated functions', 'observed': repr(ob.get('info')), 'expected': 'only functions that do not read changing data are cached'}
